@@ -147,10 +147,11 @@ type transition struct {
 }
 
 type timer struct {
-	at    int64
-	ch    *chanCore
-	val   any
-	fired bool
+	at     int64
+	ch     *chanCore
+	mk     func(at int64) any
+	fired  bool // disarmed
+	period int64
 }
 
 // Chooser decides which of n enabled transitions to take; <0 aborts the run.
@@ -621,12 +622,21 @@ func Run(root func(), ch Chooser, cfg func(*Exec)) *Exec {
 				break
 			}
 			x.Now = next
+			x.Steps++ // a periodic timer must not keep an execution alive for ever
+			if x.Steps >= x.Horizon {
+				x.HitHorizon = true
+				break
+			}
 			x.tracef("clock -> %d\n", next)
 			for _, tm := range x.timers {
 				if !tm.fired && tm.at <= x.Now {
-					tm.fired = true
 					if len(tm.ch.buf) < tm.ch.cap {
-						tm.ch.buf = append(tm.ch.buf, tm.val)
+						tm.ch.buf = append(tm.ch.buf, tm.mk(tm.at))
+					}
+					if tm.period > 0 {
+						tm.at += tm.period
+					} else {
+						tm.fired = true
 					}
 				}
 			}
